@@ -2,6 +2,7 @@ package main
 
 import (
 	"fmt"
+	"go/token"
 	"go/types"
 
 	"golang.org/x/tools/go/ssa"
@@ -204,7 +205,24 @@ func (x *executor) havocRangeGhosts(st *state, li *loopInfo) {
 	}
 }
 
-func (x *executor) mapLen(st *state, v Val) *T                      { panic(unsupported("len(map)")) }
+// len(m): an uninterpreted non-negative function of the map's key set that is 0 exactly for the empty key set
+func (x *executor) mapLen(st *state, v Val) *T {
+	c := x.c
+	mt := v.typ.Underlying().(*types.Map)
+	has, _ := c.mapHeaps(st, v.typ)
+	ks := c.sortOf(mt.Key())
+	name := "mcard_" + sanitize(ks)
+	c.d.fun(name, []string{arraySort(ks, "Bool")}, c.intSort())
+	keys := mkSelect(has, c.termOf(v))
+	n := app(name, c.intSort(), keys)
+	intT := types.Typ[types.Int]
+	st.assume(c.cmp(token.GEQ, n, c.I(0), intT))
+	qcounter++
+	q := atom(fmt.Sprintf("ck!%d", qcounter), ks)
+	none := app(fmt.Sprintf("forall ((%s %s))", q.op, q.sort), "Bool", mkNot(mkSelect(keys, q)))
+	st.assume(mkEq(mkEq(n, c.I(0)), none))
+	return n
+}
 
 // mapLookupVal: m[k] in a contract (zero value where absent)
 func (x *executor) mapLookupVal(st *state, mv Val, k Val) Val {
